@@ -115,6 +115,55 @@ fn check_group(g: &HpoGroup, m: &BTreeSet<u32>, what: &str, out: &mut CaseOut) {
         });
     }
     out.check(g.get(exp.len()).is_none(), "C12", &format!("group_get_oob/{what}"), || format!("{what}: get(len) is Some"));
+    // the iterator through the other consumers of the Iterator protocol
+    {
+        let n = exp.len();
+        bump(&mut out.events, "HpoGroup::iter (count/size_hint/nth/skip/step_by/last)");
+        let mut bad: Vec<String> = Vec::new();
+        if g.iter().count() != n {
+            bad.push(format!("iter().count() = {}", g.iter().count()));
+        }
+        let (lo, hi) = g.iter().size_hint();
+        if lo > n || hi.is_some_and(|h| h < n) {
+            bad.push(format!("size_hint() = ({lo}, {hi:?}) for {n} ids"));
+        }
+        if g.iter().last().map(|t| t.as_u32()) != exp.last().copied() {
+            bad.push("last()".to_string());
+        }
+        for k in [0usize, 1, n / 2, n.saturating_sub(1), n, n + 2] {
+            let e = exp.get(k).copied();
+            if g.iter().nth(k).map(|t| t.as_u32()) != e {
+                bad.push(format!("nth({k}) = {:?}, expected {e:?}", g.iter().nth(k).map(|t| t.as_u32())));
+            }
+            if g.iter().skip(k).next().map(|t| t.as_u32()) != e {
+                bad.push(format!("skip({k}).next()"));
+            }
+            let rest: Vec<u32> = g.iter().skip(k).map(|t| t.as_u32()).collect();
+            if rest != exp[k.min(n)..] {
+                bad.push(format!("skip({k}) yields {} ids, expected {}", rest.len(), n.saturating_sub(k)));
+            }
+            let mut it = g.iter();
+            for _ in 0..k {
+                it.next();
+            }
+            let (lo, hi) = it.size_hint();
+            let left = n.saturating_sub(k);
+            if it.count() != left || lo > left || hi.is_some_and(|h| h < left) {
+                bad.push(format!("after {k} next() calls: count / size_hint disagree with {left} remaining ids"));
+            }
+        }
+        for step in [1usize, 2, 3, 7] {
+            let got: Vec<u32> = g.iter().step_by(step).map(|t| t.as_u32()).collect();
+            let want: Vec<u32> = exp.iter().copied().step_by(step).collect();
+            if got != want {
+                bad.push(format!("step_by({step}) yields {got:?}, expected {want:?}"));
+            }
+        }
+        for b in bad {
+            out.violate("C12", &format!("group_iterator_protocol/{what}"), format!("{what}: {b} (group {exp:?})"));
+        }
+        out.comparisons += 30;
+    }
     // non-members around members
     for e in exp.iter().take(20) {
         for n in [e.wrapping_sub(1), e.wrapping_add(1)] {
